@@ -217,7 +217,8 @@ class Explore:
         self.limit = limit
 
     def run(self, starts: set[int], env: dict[str, object], *, stop: set[int] = frozenset(), on_assign=None, visit=None, strict: set[str] = frozenset()) -> set[int]:  # type: ignore[assignment]
-        """``on_assign(stmt, env) -> env | None`` lets the caller interpret an assignment itself (None = default handling);
+        """``on_assign(stmt, env) -> env | None | "raise"`` lets the caller interpret an assignment itself (None = default handling,
+        "raise" = the statement raises, so its normal continuation is not explored);
         ``visit(node_id, env)`` is called for every explored state; a test that does not evaluate and mentions a name in
         ``strict`` is an AnalysisError (cannot decide) instead of being explored on both branches."""
         from ..util import mini_eval, names_in  # local import: util imports core
@@ -261,6 +262,8 @@ class Explore:
                 if node.kind == "done" and st is not None:
                     tg, val = assign_parts(st)
                     custom = on_assign(st, dict(e)) if (tg and on_assign is not None) else None
+                    if custom == "raise":
+                        continue  # the caller's model says this statement raises: the normal continuation is infeasible
                     if custom is not None:
                         e = custom
                     elif tg:
